@@ -552,9 +552,10 @@ class PdfLoop:
 
 def sk_tables(tier):
     out = []
-    rules = [("middle", 1), ("start", 1), ("end", 1), ("middle", 2), ("middle", 3)]
+    # inflow_at is documented to be ignored for n > 1: the n-point rules are checked under every setting of it
+    rules = [("middle", 1), ("start", 1), ("end", 1), ("middle", 2), ("middle", 3), ("start", 2), ("end", 2), ("end", 3)]
     if tier == "thorough":
-        rules += [("middle", k) for k in range(4, 11)]
+        rules += [("middle", k) for k in range(4, 11)] + [("start", 3), ("start", 5), ("end", 4), ("end", 7)]
     for d in DISTS:
         for e in (0, 1):
             for inflow_at, npts in rules:
@@ -812,7 +813,8 @@ def u_prm_other_length(W, sk):
         "flodym.lifetime_models.LifetimeModel.pdf",
     ],
     skeletons=lambda tier: [{"dist": d, "extra": e, "read": rd, "npts": 1} for d in ("Normal", "Fixed", "Weibull") for e in (0, 1) for rd in ("sf", "pdf", "both", "none")]
-    + [{"dist": d, "extra": e, "read": rd, "npts": k} for k in ((2, 3) if tier == "thorough" else (2,)) for d in ("Normal", "Weibull") for e in ((0, 1) if tier == "thorough" else (0,)) for rd in ("both", "none")],
+    + [{"dist": d, "extra": e, "read": rd, "npts": k} for k in ((2, 3) if tier == "thorough" else (2,)) for d in ("Normal", "Weibull") for e in ((0, 1) if tier == "thorough" else (0,)) for rd in ("both", "none")]
+    + [{"dist": d, "extra": e, "read": "both", "npts": 1, "via": "same_flodym_array"} for d in ("Normal", "Fixed", "Weibull") for e in (0, 1)],
     stubs=["scipy.stats.norm.sf", "scipy.stats.weibull_min.sf", "flodym.lifetime_models.UnevenTimeDim.bounds"],
     note="1-2 (thorough: 3) evaluation points per interval; ghost invariant valid(lm): each cached table is absent or equals the table of the current parameters. History: optionally read sf / pdf, then set_prms(new parameters), then read both: they must be the tables of the new parameters (what a freshly built model gives)",
 )
@@ -821,6 +823,21 @@ def u_tables_follow_prms(W, sk):
     lm = M.lm
     n = M.n
     stubs = lm_stubs(W)
+    carriers = None
+    if sk.get("via") == "same_flodym_array":
+        # the parameters are handed over as FlodymArrays over the model's dimensions; the caller later changes these
+        # very objects in place and hands them over again
+        from flodym.flodym_arrays import FlodymArray
+        from .dimensions import mk_set
+
+        carriers = {}
+        for p_, a_ in M.prm_arrays.items():
+            vals = a_.copy() if hasattr(a_, "copy") else a_
+            carriers[p_] = FlodymArray.model_construct(dims=mk_set(W, M.dims), values=vals, name=p_) if W.symbolic else FlodymArray(dims=mk_set(W, M.dims), values=vals, name=p_)
+        o = W.call(lambda: lm.set_prms(**carriers), stubs=stubs)
+        W.prove("history.set_prms_with_arrays_returns", o.kind == "return", detail=repr(o))
+        if o.kind != "return":
+            return
     if sk["read"] in ("sf", "both", "pdf"):
         if W.symbolic:
             W.c.loop_contracts.append(SurvivalLoop(W, M))
@@ -847,7 +864,12 @@ def u_tables_follow_prms(W, sk):
         import numpy as np
 
         new = {p: np.array(a) * 1.7 + 0.3 for p, a in M.prm_arrays.items()}
-    o = W.call(lambda: lm.set_prms(**new), stubs=stubs)
+    if carriers is not None:
+        for p_ in new:
+            W.call(lambda: carriers[p_].values.__setitem__(Ellipsis, new[p_]))
+        o = W.call(lambda: lm.set_prms(**carriers), stubs=stubs)
+    else:
+        o = W.call(lambda: lm.set_prms(**new), stubs=stubs)
     W.prove("set_prms.returns", o.kind == "return", detail=repr(o))
     if o.kind != "return":
         return
